@@ -55,7 +55,12 @@ pub const WORK_BUDGET: u64 = 1_000_000;
 pub const WORK_BUDGET_MARKER: &str = "VERIF-WORK-BUDGET";
 
 pub fn install() {
-    verif_hooks::set_work_budget(std::env::var("VERIF_WORK_BUDGET").ok().and_then(|v| v.parse().ok()).unwrap_or(WORK_BUDGET));
+    verif_hooks::set_work_budget(
+        std::env::var("VERIF_WORK_BUDGET")
+            .ok()
+            .and_then(|v| v.parse().ok())
+            .unwrap_or(WORK_BUDGET),
+    );
     let st = Rc::new(RefCell::new(PassState::default()));
     STATE.with(|s| *s.borrow_mut() = Some(st.clone()));
     verif_hooks::set_observer(Some(Box::new(move |pass: usize, digest: u64| {
@@ -100,7 +105,11 @@ pub fn uninstall() -> PassState {
 
 /// Returns (and clears) a non-termination verdict reached since the last call.
 pub fn take_verdict() -> Option<String> {
-    STATE.with(|s| s.borrow().as_ref().and_then(|rc| rc.borrow_mut().verdict.take()))
+    STATE.with(|s| {
+        s.borrow()
+            .as_ref()
+            .and_then(|rc| rc.borrow_mut().verdict.take())
+    })
 }
 
 pub fn snapshot() -> PassState {
